@@ -130,6 +130,62 @@ let do_gs kvs =
     (match st with SOk -> "ok" | SRefused -> "refused" | SFailed -> "failed")
     (if bf.b_dirty then 1 else 0) (int_of_z bf.b_mtime) (String.concat "," (List.init nn show))
 
+(* ts names=<k> links=<a>b,...|- files=<n>:<hex>:<m>,...|- steps=<step>;<step>;...
+   one editor session over the buffer table (coq/IoTableDefs.v).  <arg> = - (none) | % | # | <name>.  Steps:
+     E@<arg>@<0|1>               ec_edit_t (1 = with !); the first one loads the file named on the command line
+     T@<hex>                     the current buffer is edited: its text becomes <hex>, modified
+     P@<hex>                     the current buffer is edited: the line <hex> is put in front, modified
+     W@<x|!|x!|->@<arg>@<b,e|->  ec_write_t
+     Q@<q|wq|x|xa>[!]@<arg>      ec_quit_t
+     F@...                       foreign operations as for gs
+   -> q=<0|1> st=<status of the last E/W/Q> dirty=<0|1: some buffer is modified> pcur=<name> palt=<name|-> (current and
+      alternate path right before the last W/Q step) table=<name>:<recorded stamp>:<dirty>,... dir=... *)
+let do_ts kvs =
+  let get k = try List.assoc k kvs with Not_found -> "-" in
+  let ios = int_of_string in
+  let nn = ios (get "names") in
+  let lk = List.map (fun w -> match String.split_on_char '>' w with
+      | [a; b] -> (nat_of_int (ios a), nat_of_int (ios b)) | _ -> failwith "links") (split_on ',' (get "links")) in
+  let fs = List.map (fun w -> match String.split_on_char ':' w with
+      | [n; h; m] -> (nat_of_int (ios n), (bytes_of_hex h, z_of_int (ios m))) | _ -> failwith "files") (split_on ',' (get "files")) in
+  let now = z_of_int 200 in
+  let rng_of r = match split_on ',' r with [b; e] -> Some (nat_of_int (ios b), nat_of_int (ios e)) | _ -> None in
+  let arg_of a = if a = "-" || a = "" then ANone else if a = "%" then ACur else if a = "#" then AAlt else AName (nat_of_int (ios a)) in
+  let (lk, fs, tb, q, st, prev) = List.fold_left (fun (lk, fs, tb, q, st, prev) step ->
+      if q then (lk, fs, tb, q, st, prev) else
+      match String.split_on_char '@' step with
+      | ["E"; a; bang] -> let (st', tb') = ec_edit_t (bang = "1") lk fs (arg_of a) tb in (lk, fs, tb', q, st', prev)
+      | ["T"; h] ->
+        (match tb with
+         | b0 :: rest -> (lk, fs, { b0 with b_lines = split_lines (bytes_of_hex h); b_dirty = true } :: rest, q, st, prev)
+         | [] -> (lk, fs, tb, q, st, prev))
+      | ["P"; h] ->
+        (match tb with
+         | b0 :: rest -> (lk, fs, { b0 with b_lines = bytes_of_hex h :: b0.b_lines; b_dirty = true } :: rest, q, st, prev)
+         | [] -> (lk, fs, tb, q, st, prev))
+      | ["W"; fl; a; r] ->
+        let (((st', tb'), fs'), _) = ec_write_t now (String.contains fl 'x') (String.contains fl '!') (rng_of r) lk (arg_of a) tb fs [] in
+        (lk, fs', tb', false, st', tb)
+      | ["Q"; c; a] ->
+        let has ch = String.contains c ch in
+        let ((((q', st'), tb'), fs'), _) = ec_quit_t now (c.[0] = 'w' || c.[0] = 'x') (c.[0] = 'x') (has 'a') (has '!') lk (arg_of a) tb fs [] in
+        (lk, fs', tb', q', st', tb)
+      | ["F"; "w"; n; h; m] -> let (lk', fs') = foreign (lk, fs) (FWrite (nat_of_int (ios n), bytes_of_hex h, z_of_int (ios m))) in (lk', fs', tb, q, st, prev)
+      | ["F"; "r"; n; h; m] -> let (lk', fs') = foreign (lk, fs) (FReplace (nat_of_int (ios n), bytes_of_hex h, z_of_int (ios m))) in (lk', fs', tb, q, st, prev)
+      | ["F"; "t"; n; m] -> let (lk', fs') = foreign (lk, fs) (FTouch (nat_of_int (ios n), z_of_int (ios m))) in (lk', fs', tb, q, st, prev)
+      | ["F"; "d"; n] -> let (lk', fs') = foreign (lk, fs) (FRemove (nat_of_int (ios n))) in (lk', fs', tb, q, st, prev)
+      | _ -> failwith ("ts step " ^ step)) (lk, fs, [], false, SOk, []) (split_on ';' (get "steps")) in
+  let show i = let p = nat_of_int i in
+    match lk_get lk p with
+    | Some t -> Printf.sprintf "L%d" (int_of_nat t)
+    | None -> (match fs_content fs p with Some c -> hex_of_bytes c | None -> "absent") in
+  let nm k = match List.nth_opt prev k with Some b -> string_of_int (int_of_nat b.b_path) | None -> "-" in
+  pr "q=%d st=%s dirty=%d pcur=%s palt=%s table=%s dir=%s\n" (if q then 1 else 0)
+    (match st with SOk -> "ok" | SRefused -> "refused" | SFailed -> "failed")
+    (if List.exists (fun b -> b.b_dirty) tb then 1 else 0) (nm 0) (nm 1)
+    (String.concat "," (List.map (fun b -> Printf.sprintf "%d:%d:%d" (int_of_nat b.b_path) (int_of_z b.b_mtime) (if b.b_dirty then 1 else 0)) tb))
+    (String.concat "," (List.init nn show))
+
 let () =
   iter_lines (fun l ->
     (match words l with
@@ -137,6 +193,8 @@ let () =
     | ["rw"; chunks; b; e; old; pos; c2] -> do_rw chunks b e old (Some (pos, c2))
     | ["sbuf"; lens] -> do_sbuf lens
     | "gs" :: kvs -> do_gs (List.map (fun w -> match String.index_opt w '=' with
+        | Some i -> (String.sub w 0 i, String.sub w (i + 1) (String.length w - i - 1)) | None -> (w, "")) kvs)
+    | "ts" :: kvs -> do_ts (List.map (fun w -> match String.index_opt w '=' with
         | Some i -> (String.sub w 0 i, String.sub w (i + 1) (String.length w - i - 1)) | None -> (w, "")) kvs)
     | "sv" :: kvs -> do_sv (List.map (fun w -> match String.index_opt w '=' with
         | Some i -> (String.sub w 0 i, String.sub w (i + 1) (String.length w - i - 1)) | None -> (w, "")) kvs)
